@@ -561,7 +561,12 @@ func (d *hoDriver) height() error {
 			a.C.Eng.TakeLog()
 			res2, err := a.C.Finalize(blkA)
 			if err != nil {
-				return fmt.Errorf("re-execution failed: %w", err)
+				// the same block on the same committed state, executed again on a healthy engine, fails: recorded as a failed
+				// finalisation no fault explains and as a second, different result for the same execution key
+				d.emit("finalize", Ev{"h": h, "proposer": proposer + 1, "p": desc, "msgOk": false, "modulesOk": d.lg.clean, "endNp": "VALID", "endFcu": "VALID",
+					"err": true, "errText": short(err.Error()), "engine": engineView(a.C.Eng.TakeLog()), "blockHash": project.H6(blkA.Hash(a.C.ChainID)), "byz": ""})
+				d.emit("exec", Ev{"key": key, "res": "error:" + short(err.Error()), "replica": "A", "attempt": attempt + k + 1, "detail": "re-execution failed"})
+				return &HaltError{Height: h, Err: fmt.Errorf("re-execution failed: %w", err)}
 			}
 			calls2 := a.C.Eng.TakeLog()
 			d.emit("finalize", Ev{"h": h, "proposer": proposer + 1, "p": desc, "msgOk": res2.TxResults[0].Code == 0, "modulesOk": d.lg.clean, "endNp": "VALID", "endFcu": "VALID",
